@@ -1388,7 +1388,7 @@ fn main() {
             pub fn mark_c(app: &tauri::AppHandle, id: Uuid, name: String) {{ app.emit(\"account:named\", id).ok(); app.emit(\"account:named\", name).ok(); }}\n\
             #[derive(Serialize, Deserialize, Clone)]\npub struct Stamped {{ pub at: ext::Stamp, pub all: Vec<ext::Stamp>, pub by: HashMap<String, Option<ext::Stamp>>, pub span: Span, pub spans: Vec<Span> }}\n\
             #[derive(Serialize, Deserialize, Clone)]\npub struct Span {{ pub secs: u32 }}\n\
-            #[derive(Serialize, Deserialize, Clone)]\n#[serde(into = \"u64\", try_from = \"u64\")]\npub struct LocalStamp {{ pub secs: u64, pub zone: LocalZone }}\n#[derive(Serialize, Deserialize, Clone)]\npub struct LocalZone {{ pub offset: i32 }}\n\
+            #[derive(Serialize, Deserialize, Clone)]\n#[serde(into = \"u64\", try_from = \"u64\")]\npub struct LocalStamp {{ pub secs: u64, pub zone: LocalZone, pub parts: Vec<LocalParts> }}\n#[derive(Serialize, Deserialize, Clone)]\npub struct LocalZone {{ pub offset: i32 }}\n#[derive(Serialize, Deserialize, Clone)]\npub struct LocalParts {{ pub hi: u32, pub lo: LocalPartsLow }}\n#[derive(Serialize, Deserialize, Clone)]\npub struct LocalPartsLow {{ pub lo: u32 }}\n\
             #[derive(Serialize, Deserialize, Clone)]\npub struct Visit {{ pub big: i128, pub bigs: Vec<Option<i128>>, pub blob: Vec<u8>, pub at: LocalStamp, pub earlier: Vec<Option<LocalStamp>>, #[serde(with = \"stamp_fmt\")] pub due: Timestamp, #[serde(serialize_with = \"ser_ids\", deserialize_with = \"de_ids\")] pub ids: Vec<Uuid>, #[serde(default, with = \"opt_fmt\")] pub paid: Option<Timestamp> }}\n\
             #[tauri::command]\npub fn visits(first: LocalStamp, zone: LocalZone) -> Vec<Visit> {{ vec![] }}\n\
             #[tauri::command]\npub fn stamps(s: Stamped, first: ext::Stamp, on_stamp: Channel<ext::Stamp>, on_many: Channel<Vec<Option<ext::Stamp>>>) -> Result<Vec<ext::Stamp>, String> {{ Ok(vec![]) }}\n", HDR);
@@ -1440,10 +1440,20 @@ fn main() {
                 let plain = exports_of(&fs::read_to_string(out2.join("types.ts")).map_err(|e| e.to_string())?);
                 let with = exports_of(files.get("types.ts").ok_or("no types.ts")?);
                 for n in &plain {
-                    if ["LocalStamp", "LocalStampSchema", "LocalZone", "LocalZoneSchema"].contains(&n.as_str()) { continue; } // the mapped project type and what only it reaches
+                    if ["LocalStamp", "LocalStampSchema", "LocalZone", "LocalZoneSchema", "LocalParts", "LocalPartsSchema", "LocalPartsLow", "LocalPartsLowSchema"].contains(&n.as_str()) { continue; } // the mapped project type and what only it reaches
                     if !with.contains(n) { return Err(format!("`{}` is declared without a mapping table but not with one, although the table does not name it", n)); }
                 }
                 Ok(format!("{} names", plain.len()))
+            });
+            // C07: what only the fields of a mapped project type mention is reachable from nothing in the bindings
+            rep.case("types_behind_a_mapped_type_are_not_declared", &format!("project=mapped mode={} LocalStamp (mapped to number) {{ parts: Vec<LocalParts> }}, LocalParts {{ lo: LocalPartsLow }}", mode), &|| {
+                let files = res.as_ref().map_err(|e| e.clone())?;
+                let with = exports_of(files.get("types.ts").ok_or("no types.ts")?);
+                for n in ["LocalParts", "LocalPartsSchema", "LocalPartsLow", "LocalPartsLowSchema"] {
+                    if with.contains(n) { return Err(format!("types.ts declares `{}`, which only the mapped type LocalStamp reaches: no command, channel, event or declared type refers to it", n)); }
+                }
+                if !with.contains("LocalZone") && !with.contains("LocalZoneSchema") { return Err("UNPARSED: LocalZone (a parameter of `visits`) is not declared".into()); }
+                Ok("ok".into())
             });
             if mode == "zod" { rep.case("schemas_defined_before_use", "project=mapped", &|| schemas_defined_before_use(res.as_ref().map_err(|e| e.clone())?.get("types.ts").ok_or("no types.ts")?)); }
             // C18: a type the mapping does not name is rendered exactly as without the mapping
@@ -1901,6 +1911,200 @@ fn main() {
         for mode in ["none", "zod"] {
             let files = generate(&dir, &root.join(format!("pointers/out_{}", mode)), mode);
             rep.case("generated_files_are_lexically_wellformed", &format!("project=pointers mode={}", mode), &|| lexical_wellformed(files.as_ref().map_err(|e| e.clone())?));
+        }
+    }
+    // ============================================================ findings of the bug hunt that are recorded, not repaired (known_findings.json lists each input)
+    // ---- C11: every declared constraint is enforced (none silently dropped)
+    {
+        let src = format!("{}use std::collections::HashSet;\n#[derive(Serialize, Deserialize, validator::Validate)]\npub struct Form {{\n    #[validate(range(exclusive_min = 0.0, exclusive_max = 10.0))]\n    pub ratio: f64,\n    #[validate(length(equal = 4))]\n    pub pin: String,\n    #[validate(length(min = 1, max = 3))]\n    pub tags: HashSet<String>,\n    #[validate(length(min = 1))]\n    pub attrs: HashMap<String, u32>,\n    #[validate(length(min = 2, max = 5))]\n    pub plain: String,\n}}\n#[tauri::command]\npub fn submit(form: Form) -> u32 {{ 0 }}\n", HDR);
+        let dir = root.join("kf_validators/src");
+        write_files(&dir, &[("lib.rs".to_string(), src)]);
+        let files = generate(&dir, &root.join("kf_validators/out_zod"), "zod");
+        let wants: [(&str, &str, &[&[&str]]); 5] = [
+            ("ratio", "#[validate(range(exclusive_min = 0.0, exclusive_max = 10.0))] pub ratio: f64", &[&[".gt(0"], &[".lt(10"]]),
+            ("pin", "#[validate(length(equal = 4))] pub pin: String", &[&[".length(4"]]),
+            ("tags", "#[validate(length(min = 1, max = 3))] pub tags: HashSet<String>", &[&[".min(1", ".refine("], &[".max(3", ".refine("]]),
+            ("attrs", "#[validate(length(min = 1))] pub attrs: HashMap<String, u32>", &[&[".min(1", ".refine("]]),
+            ("plain", "#[validate(length(min = 2, max = 5))] pub plain: String", &[&[".min(2"], &[".max(5"]]),
+        ];
+        for (key, decl, groups) in wants {
+            rep.case("declared_validators_are_all_enforced", decl, &|| {
+                let files = files.as_ref().map_err(|e| e.clone())?;
+                let sch = zod_field(files.get("types.ts").ok_or("no types.ts")?, "Form", key).ok_or(format!("UNPARSED: FormSchema has no key {}", key))?;
+                for alternatives in groups { if !alternatives.iter().any(|a| sch.contains(a)) { return Err(format!("schema of `{}` is `{}`: none of {:?} in it, the declared constraint is dropped", key, sch, alternatives)); } }
+                Ok(sch)
+            });
+        }
+    }
+    // ---- C02: no module (index.ts through its re-exports included) exports a name twice
+    {
+        let exported_twice = |files: &BTreeMap<String, String>| -> Result<String, String> {
+            let decls = |text: &str| -> Vec<(bool, String)> {
+                let mut v = Vec::new();
+                for l in text.lines() {
+                    let t = l.trim_start();
+                    for (pre, is_type) in [("export interface ", true), ("export type ", true), ("export const ", false), ("export async function ", false), ("export function ", false), ("export class ", false), ("export enum ", false)] {
+                        if let Some(r) = t.strip_prefix(pre) { v.push((is_type, r.chars().take_while(|c| c.is_alphanumeric() || *c == '_' || *c == '$').collect())); }
+                    }
+                }
+                v
+            };
+            for (f, text) in files {
+                if !f.ends_with(".ts") { continue; }
+                let mut seen = BTreeSet::new();
+                for d in decls(text) { if !seen.insert(d.clone()) { return Err(format!("{} declares the exported {} `{}` twice", f, if d.0 { "type" } else { "value" }, d.1)); } }
+            }
+            if let Some(index) = files.get("index.ts") {
+                let mut seen: BTreeMap<(bool, String), String> = BTreeMap::new();
+                for l in index.lines() {
+                    if let Some(r) = l.trim().strip_prefix("export * from './") {
+                        let module = format!("{}.ts", r.trim_end_matches(|c| c == ';' || c == '\''));
+                        for d in decls(files.get(&module).map(|s| s.as_str()).unwrap_or("")) {
+                            if let Some(first) = seen.insert(d.clone(), module.clone()) { if first != module { return Err(format!("index.ts re-exports `{}` from {} and from {}", d.1, first, module)); } }
+                        }
+                    }
+                }
+            }
+            Ok("ok".into())
+        };
+        let projects = [
+            ("kf_params_name", "struct SaveParams next to the command `save` (whose parameter interface is SaveParams)", format!("{}#[derive(Serialize, Deserialize)]\npub struct SaveParams {{ pub overwrite: bool }}\n#[tauri::command]\npub fn save(file_name: String, options: SaveParams) -> u32 {{ 0 }}\n", HDR)),
+            ("kf_listener_name", "command `on_progress` next to the event \"progress\" (listener onProgress)", format!("{}use tauri::Emitter;\n#[tauri::command]\npub fn on_progress(app: tauri::AppHandle, step: u32) -> u32 {{ app.emit(\"progress\", step).ok(); 0 }}\n", HDR)),
+        ];
+        for (pname, what, src) in &projects {
+            let dir = root.join(format!("{}/src", pname));
+            write_files(&dir, &[("lib.rs".to_string(), src.clone())]);
+            for mode in ["none", "zod"] {
+                let files = generate(&dir, &root.join(format!("{}/out_{}", pname, mode)), mode);
+                rep.case("no_name_is_exported_twice", &format!("{} mode={}", what, mode), &|| exported_twice(files.as_ref().map_err(|e| e.clone())?));
+            }
+        }
+    }
+    // ---- C07: two reachable serde structs are two declarations, also when they share their name
+    {
+        let files_src = vec![
+            ("lib.rs".to_string(), "pub mod users;\npub mod orders;\n".to_string()),
+            ("users.rs".to_string(), format!("{}#[derive(Serialize, Deserialize)]\npub struct Filter {{ pub name: String }}\n#[tauri::command]\npub fn users(f: Filter) -> u32 {{ 0 }}\n", HDR)),
+            ("orders.rs".to_string(), format!("{}#[derive(Serialize, Deserialize)]\n#[serde(rename_all = \"camelCase\")]\npub struct Filter {{ pub min_total: u32, pub status: String }}\n#[tauri::command]\npub fn orders(f: Filter) -> u32 {{ 0 }}\n", HDR)),
+        ];
+        let dir = root.join("kf_same_name/src");
+        write_files(&dir, &files_src);
+        for mode in ["none", "zod"] {
+            let files = generate(&dir, &root.join(format!("kf_same_name/out_{}", mode)), mode);
+            rep.case("same_named_types_are_declared_apart", &format!("users::Filter {{ name }} and orders::Filter {{ min_total, status }}, each the parameter of a command mode={}", mode), &|| {
+                let files = files.as_ref().map_err(|e| e.clone())?;
+                let t = files.get("types.ts").ok_or("no types.ts")?;
+                let head = if mode == "zod" { "export const " } else { "export interface " };
+                let decls: Vec<&str> = t.lines().filter(|l| l.starts_with(head) && l[head.len()..].starts_with("Filter")).collect();
+                let mut all_keys = BTreeSet::new();
+                for name in decls.iter().map(|l| l[head.len()..].chars().take_while(|c| c.is_alphanumeric() || *c == '_').collect::<String>()) {
+                    let n = name.trim_end_matches("Schema").to_string();
+                    for k in object_keys(t, &n, mode == "zod").unwrap_or_default() { all_keys.insert(k); }
+                }
+                for k in ["name", "minTotal", "status"] { if !all_keys.contains(k) { return Err(format!("the declarations named Filter* ({:?}) have the keys {:?}: `{}` of the other struct Filter is missing, one of the two reachable structs is not declared", decls, all_keys, k)); } }
+                Ok(format!("{:?}", all_keys))
+            });
+        }
+    }
+    // ---- C10: the schema of a recursive type can be evaluated (a constant is not read inside its own initialiser)
+    {
+        let src = format!("{}#[derive(Serialize, Deserialize)]\npub struct TreeNode {{ pub label: String, pub children: Vec<TreeNode> }}\n#[tauri::command]\npub fn tree(root: TreeNode) -> u32 {{ 0 }}\n", HDR);
+        let dir = root.join("kf_recursive/src");
+        write_files(&dir, &[("lib.rs".to_string(), src)]);
+        let files = generate(&dir, &root.join("kf_recursive/out_zod"), "zod");
+        rep.case("recursive_schemas_can_be_evaluated", "struct TreeNode { label: String, children: Vec<TreeNode> } mode=zod", &|| {
+            let files = files.as_ref().map_err(|e| e.clone())?;
+            let t = files.get("types.ts").ok_or("no types.ts")?;
+            let st = t.find("export const TreeNodeSchema").ok_or("UNPARSED: no TreeNodeSchema")?;
+            let en = t[st..].find(";\n").map(|e| st + e).unwrap_or(t.len());
+            let init = &t[st + "export const TreeNodeSchema".len()..en];
+            let mut from = 0;
+            while let Some(p) = init[from..].find("TreeNodeSchema") {
+                let at = from + p;
+                let lazy = init[..at].rfind("z.lazy(").map_or(false, |l| init[l..at].matches('(').count() > init[l..at].matches(')').count());
+                if !lazy { return Err(format!("TreeNodeSchema is read inside its own initialiser outside z.lazy: `{}` - evaluating the module throws a ReferenceError", init.trim().replace('\n', " "))); }
+                from = at + 1;
+            }
+            Ok("ok".into())
+        });
+    }
+    // ---- C12: the listener of every Tauri-legal event name has an identifier for a name
+    {
+        let src = format!("{}use tauri::Emitter;\n#[tauri::command]\npub fn measure(app: tauri::AppHandle) -> u32 {{ app.emit(\"m\u{b2}-changed\", 1u32).ok(); app.emit(\"\u{bd}-done\", true).ok(); app.emit(\"caf\u{e9}-open\", 2u32).ok(); 0 }}\n", HDR);
+        let dir = root.join("kf_event_names/src");
+        write_files(&dir, &[("lib.rs".to_string(), src)]);
+        for mode in ["none", "zod"] {
+            let files = generate(&dir, &root.join(format!("kf_event_names/out_{}", mode)), mode);
+            for ev in ["m\u{b2}-changed", "\u{bd}-done", "caf\u{e9}-open"] {
+                rep.case("listener_names_are_identifiers", &format!("emit(\"{}\", ..) mode={}", ev, mode), &|| {
+                    let files = files.as_ref().map_err(|e| e.clone())?;
+                    let e = files.get("events.ts").ok_or("no events.ts")?;
+                    let at = e.find(&format!("('{}'", ev)).or_else(|| e.find(&format!("(\"{}\"", ev))).ok_or(format!("UNPARSED: events.ts does not subscribe to {}", ev))?;
+                    let fn_at = e[..at].rfind("export async function ").ok_or("UNPARSED: no listener function before the subscription")?;
+                    let name: String = e[fn_at + "export async function ".len()..].chars().take_while(|c| *c != '(' && *c != '<' && !c.is_whitespace()).collect();
+                    let ok = name.chars().next().map_or(false, |c| unicode_ident::is_xid_start(c) || c == '_' || c == '$') && name.chars().skip(1).all(|c| unicode_ident::is_xid_continue(c) || c == '$' || c == '\u{200c}' || c == '\u{200d}');
+                    if ok { Ok(name) } else { Err(format!("listener `{}` of the event \"{}\": not an identifier (a character outside ID_Start / ID_Continue)", name, ev)) }
+                });
+            }
+        }
+    }
+    // ---- C18: a mapped type is rendered as its target, whatever the target is
+    {
+        let src = format!("{}#[derive(Serialize, Deserialize)]\npub struct Visit2 {{ pub at: Stamp2, pub level: Level2 }}\n#[tauri::command]\npub fn last_visit() -> Stamp2 {{ todo!() }}\n#[tauri::command]\npub fn level() -> Option<Level2> {{ None }}\n#[tauri::command]\npub fn visit2(v: Visit2) -> u32 {{ 0 }}\n", HDR);
+        let dir = root.join("kf_targets/src");
+        write_files(&dir, &[("lib.rs".to_string(), src)]);
+        for mode in ["none", "zod"] {
+            let out = root.join(format!("kf_targets/out_{}", mode));
+            let _ = fs::remove_dir_all(&out);
+            let mut cfg = GenerateConfig::default();
+            cfg.project_path = dir.to_string_lossy().to_string();
+            cfg.output_path = out.to_string_lossy().to_string();
+            cfg.validation_library = mode.to_string();
+            cfg.type_mappings = Some([("Stamp2".to_string(), "Date".to_string()), ("Level2".to_string(), "\"low\" | \"high\"".to_string())].into_iter().collect());
+            let res = generate_from_config(&cfg).map_err(|e| format!("generate_from_config returned Err: {}", e)).map(|_| {
+                let mut m = BTreeMap::new();
+                for f in ["types.ts", "commands.ts", "events.ts", "index.ts"] { if let Ok(t) = fs::read_to_string(out.join(f)) { m.insert(f.to_string(), t); } }
+                m
+            });
+            for (cmd, target, bad, good) in [("lastVisit", "Stamp2 -> Date, fn last_visit() -> Stamp2", "types.Date", "Promise<Date>"), ("level", "Level2 -> \"low\" | \"high\", fn level() -> Option<Level2>", "types.\"", "\"low\" | \"high\"")] {
+                rep.case("mapped_type_is_rendered_as_its_target", &format!("{} mode={}", target, mode), &|| {
+                    let files = res.as_ref().map_err(|e| e.clone())?;
+                    let c = files.get("commands.ts").ok_or("no commands.ts")?;
+                    let line = c.lines().find(|l| l.contains(&format!("function {}(", cmd))).ok_or(format!("UNPARSED: no function {}", cmd))?;
+                    if line.contains(bad) { return Err(format!("commands.ts: `{}` - the target is glued to the `types.` namespace, which exports no such name", line.trim())); }
+                    if !line.contains(good) { return Err(format!("commands.ts: `{}` does not name the target `{}`", line.trim(), good)); }
+                    Ok(line.trim().to_string())
+                });
+            }
+        }
+    }
+    // ---- C04: keys are converted the way Tauri's command macro converts them (heck), also for names that are not plain snake_case
+    {
+        let src = format!("{}use tauri::ipc as tipc;\n#[allow(non_snake_case)]\n#[tauri::command]\npub fn odd_names(userID: String, HTTP_port: u16, plain_name: u32) -> u32 {{ 0 }}\n#[tauri::command(rename_all = \"snake_case\")]\npub fn snake_names(_window_label: String, max__size: u32, plain_name: u32) -> u32 {{ 0 }}\n#[tauri::command]\npub fn watch(id: u32, on_tick: tipc::Channel<u32>) -> u32 {{ 0 }}\n", HDR);
+        let dir = root.join("kf_cases/src");
+        write_files(&dir, &[("lib.rs".to_string(), src)]);
+        for mode in ["none", "zod"] {
+            let files = generate(&dir, &root.join(format!("kf_cases/out_{}", mode)), mode);
+            for (obj, sig, want) in [
+                ("OddNamesParams", "fn odd_names(userID: String, HTTP_port: u16, plain_name: u32) (camelCase)", vec!["httpPort", "plainName", "userId"]),
+                ("SnakeNamesParams", "#[tauri::command(rename_all = \"snake_case\")] fn snake_names(_window_label: String, max__size: u32, plain_name: u32)", vec!["max_size", "plain_name", "window_label"]),
+            ] {
+                rep.case("invoke_keys_follow_the_case_conversion_of_tauri", &format!("{} mode={}", sig, mode), &|| {
+                    let files = files.as_ref().map_err(|e| e.clone())?;
+                    let mut keys = object_keys(files.get("types.ts").ok_or("no types.ts")?, obj, mode == "zod").ok_or(format!("UNPARSED: {} not found", obj))?;
+                    keys.sort();
+                    if keys != want { return Err(format!("keys {:?}; Tauri's command macro (heck) reads {:?}", keys, want)); }
+                    Ok(format!("{:?}", keys))
+                });
+            }
+            rep.case("aliased_channel_keeps_its_key", &format!("use tauri::ipc as tipc; fn watch(id: u32, on_tick: tipc::Channel<u32>) mode={}", mode), &|| {
+                let files = files.as_ref().map_err(|e| e.clone())?;
+                let t = files.get("types.ts").ok_or("no types.ts")?;
+                let block: String = t.split("\n\n").filter(|b| b.contains("WatchParams")).collect::<Vec<_>>().join("\n");
+                if block.is_empty() { return Err("UNPARSED: no declaration of WatchParams".into()); }
+                if !block.contains("onTick:") && !block.contains("onTick?:") { return Err("the argument object of `watch` has no key `onTick`: the command parser drops every `..::Channel<T>` from the plain parameters, the channel parser does not take `tipc::Channel<u32>` for a channel".into()); }
+                Ok("ok".into())
+            });
         }
     }
     let _ = fs::remove_dir_all(&root);
